@@ -9,7 +9,13 @@ def dispatch_run(profile, mask, dmask, nq, nt, extra=None):
 
 BUILD_SCOPES = {"parse": "00000000", "dispatch": "00100000", "complete": "01100000", "all": "11100000"}
 
-def build_run(nq, nt, profile="build", scope="parse", role="tie"):
+def build_run(nq, nt, profile="build", scope="parse", role=None):
+    # what the parser and Dispatch read from the tree (keys, kinds, bounds, modes, require order,
+    # required flags, functions, the state the definition leaves) is behaviour the properties rely on:
+    # a difference there is a failing definition.  Fields only the help text or completion show are
+    # model validation (tie) for the properties that do not talk about them.
+    if role is None:
+        role = "decide" if scope in ("parse", "dispatch") else "tie"
     # validates the model of the definition API; an observable of a property only for C12 and C06, whose
     # clauses about the environment variable / SetCalled are about the state the definition leaves
     # (value, Called, CalledAs before any command line is parsed).  The first three
